@@ -90,7 +90,7 @@ pub fn run(cfg: &RunCfg) -> Ctx {
         all.merge(par_cases(cfg, "balance-tls", cfg.n(12, 16 * 12), || (), |_, _rng, ctx, i| balance_tls_case(ctx, i)));
     }
     all.add("matrix.size", n);
-    for k in ["expect.success", "expect.fail.chain", "expect.fail.name", "expect.fail.alpn", "expect.fail.client_auth", "observed.handshake_records", "observed.peer_certs_some", "observed.peer_certs_none"] {
+    for k in ["expect.success", "expect.fail.chain", "expect.fail.name", "expect.fail.alpn", "expect.fail.client_auth", "observed.handshake_records", "observed.peer_certs_some", "observed.peer_certs_none", "cfg.tls_config_called_twice"] {
         all.floor(k, 5);
     }
     all
@@ -175,6 +175,10 @@ fn case(rng: &mut Rng, ctx: &mut Ctx, c: Cfg, rep: u64) {
     } else {
         (rng.below(6), rng.below(8), rng.chance(1, 3), *rng.pick(&["other.test", "verif.test:443", "https://verif.test", "", "verif.test/", "verif test", "*.test", "test", "xverif.test", "verif.test.evil"]))
     };
+    let reconfigured = rep > 0 && (seed >> 9) % 3 == 0;
+    if reconfigured {
+        ctx.count("cfg.tls_config_called_twice");
+    }
     if c.domain == Domain::ConfiguredMismatch {
         ctx.distinct("wrong_names", wrong_name);
     }
@@ -322,6 +326,23 @@ fn case(rng: &mut Rng, ctx: &mut Ctx, c: Cfg, rep: u64) {
             // set before tls_config, as an application that configures its endpoint top-down does
             Some(o) => Endpoint::from_static(uri).origin(o.parse().expect("verif-harness-bug: origin uri")),
             None => Endpoint::from_static(uri),
+        };
+        // some repetitions configure the endpoint twice: first with the opposite of what this
+        // cell wants (a trusting decoy for a cell that must fail, a distrusting one for a cell
+        // that must succeed), then with the cell's configuration.  The last `tls_config` is the
+        // one the caller asked for; an endpoint that cannot take the decoy is used as it was
+        let ep0 = if reconfigured {
+            let decoy = if chain_ok {
+                ClientTlsConfig::new().ca_certificate(Certificate::from_pem(CA2)).domain_name("other.test")
+            } else {
+                ClientTlsConfig::new().ca_certificate(Certificate::from_pem(CA1)).domain_name("verif.test").assume_http2(true).identity(Identity::from_pem(CLIENT1_PEM, CLIENT1_KEY))
+            };
+            match ep0.clone().tls_config(decoy) {
+                Ok(e) => e,
+                Err(_) => ep0,
+            }
+        } else {
+            ep0
         };
         let connected = match ep0.tls_config(tls) {
             // a configuration that is refused outright is a rejection too (nothing is ever sent)
